@@ -1,6 +1,7 @@
 """C06 — rotation geometry primitives agree with SO(3) ground truth."""
 import math
 import numpy as np
+import pandas as pd
 from .common import *  # noqa
 
 PROPERTY = "C06"
@@ -280,9 +281,18 @@ def h_selectors(env):
     env.check("unknown_selector_is_rejected", env.true() if raised else _false(env))
 
 
-def h_normals_from_angles(env, n=2):
+def h_normals_from_angles(env, n=2, after_scaled_call=False):
     g = env.module("geom")
     ts = [_tri(env, "a%d" % i) for i in range(n)]
+    if after_scaled_call:
+        # earlier calls with another sphere radius in the same process must leave nothing behind
+        rad = env.real("radius", 0.25, 4)
+        r0 = g.srot.from_euler("zxz", _arr(env, ts), degrees=True)
+        p0 = g.visualize_rotations(r0, plot_rotations=False, radius=rad)
+        for i in range(n):
+            R = R_zxz(env, *ts[i])
+            env.check("scaled_image_of_z_axis_%d" % i, vec_eq(env, [p0[i][k] for k in range(3)], [R[k][2] * rad for k in range(3)]))
+        g.visualize_rotations(r0, plot_rotations=False, radius=0.5)
     out = g.euler_angles_to_normals(_arr(env, ts))
     env.check("one_vector_per_orientation", env.true() if tuple(out.shape) == (n, 3) else _false(env))
     if tuple(out.shape) != (n, 3):
@@ -297,7 +307,7 @@ def h_normals_from_angles(env, n=2):
         env.check("visualize_angles_z_axis_image_%d" % i, vec_eq(env, [pts[i][k] for k in range(3)], [R[k][2] for k in range(3)]))
 
 
-def h_angles_from_normals(env, case="generic", order="zxz"):
+def h_angles_from_normals(env, case="generic", order="zxz", frame=None):
     g = env.module("geom")
     nx, ny, nz = env.real("nx", -10, 10), env.real("ny", -10, 10), env.real("nz", -10, 10)
     if case == "generic":
@@ -313,7 +323,17 @@ def h_angles_from_normals(env, case="generic", order="zxz"):
         env.assume(env.not_(env.eq(ny, 0)))
     nrm = [nx, ny, nz]
     second = [0.0, 3.0, -4.0]
-    a = g.normals_to_euler_angles(_arr(env, [nrm, second]), output_order=order)
+    if frame is None:
+        a = g.normals_to_euler_angles(_arr(env, [nrm, second]), output_order=order)
+    else:
+        # normals handed over as a table with named columns: the names decide, not the positions
+        cols = {"xyz": ["x", "y", "z"], "zyx": ["z", "y", "x"], "id_first": ["vertex_id", "x", "y", "z"], "extra": ["y", "curvature", "z", "x"]}[frame]
+        data = {"x": [nrm[0], second[0]], "y": [nrm[1], second[1]], "z": [nrm[2], second[2]], "vertex_id": [11.0, 12.0], "curvature": [0.5, -0.5]}
+        if env.mode == "sym":
+            df = pd.DataFrame({c: objcol(data[c]) for c in cols}, columns=cols)
+        else:
+            df = pd.DataFrame({c: np.array([float(v) for v in data[c]]) for c in cols}, columns=cols)
+        a = g.normals_to_euler_angles(df, output_order=order)
     lam = env.sqrt(sum(v * v for v in nrm))
     for i, vec in enumerate([nrm, second]):
         if i == 1:
@@ -334,9 +354,10 @@ def jobs(tier, seed):
     j = [("h_angular", {"n": 1}), ("h_angular", {"n": 2}), ("h_angular", {"n": 1, "compose": "left"}), ("h_angular", {"n": 1, "compose": "right"}),
          ("h_trace_lemma", {"side": "left"}), ("h_trace_lemma", {"side": "right"}), ("h_triangle", {"via": "arrays"}), ("h_triangle", {"via": "rotations"}),
          ("h_angular_equal", {}), ("h_angular_near", {"delta": 0.02}), ("h_angular_symmetric", {}), ("h_cone", {"n": 1}), ("h_cone", {"n": 2}), ("h_cone", {"n": 1, "via": "compare_cone"}), ("h_cone", {"n": 1, "via": "compare_all"}), ("h_selectors", {}), ("h_inplane", {}), ("h_inplane", {"equal": True}), ("h_inplane", {"by_value": True}),
-         ("h_normals_from_angles", {"n": 1}), ("h_normals_from_angles", {"n": 2}),
+         ("h_normals_from_angles", {"n": 1}), ("h_normals_from_angles", {"n": 2}), ("h_normals_from_angles", {"n": 1, "after_scaled_call": True}),
          ("h_angles_from_normals", {"case": "generic"}), ("h_angles_from_normals", {"case": "z"}), ("h_angles_from_normals", {"case": "xz_plane"}),
-         ("h_angles_from_normals", {"case": "y_axis"}), ("h_angles_from_normals", {"case": "generic", "order": "zzx"})]
+         ("h_angles_from_normals", {"case": "y_axis"}), ("h_angles_from_normals", {"case": "generic", "frame": "zyx"}),
+         ("h_angles_from_normals", {"case": "generic", "frame": "id_first", "order": "zzx"}), ("h_angles_from_normals", {"case": "xz_plane", "frame": "extra"}), ("h_angles_from_normals", {"case": "generic", "order": "zzx"})]
     if tier == "thorough":
         j += [("h_angular", {"n": 3}), ("h_normals_from_angles", {"n": 3}), ("h_cone", {"n": 3})]
     return j
